@@ -90,13 +90,41 @@ func genConc9(prop string, seed uint64, tier string) Scenario {
 			sc.Ops = append(sc.Ops, Op{K: "frame", T: 20 + r.n(nnodes), P: r.weighted([]int{3, 3, 3, 2, 5, 3, 3, 2, 2, 2, 2}), M: r.n(4), I: r.n(16), N: r.n(64), D: r.weighted([]int{6, 4, 4, 3, 3, 2, 2, 1, 1, 2}), X: r.pick(0, 0, 0, 1)})
 		}
 	}
+	// Two-phase runs: every node falls silent for longer than the purge deadline in the middle of
+	// its traffic and comes back with a burst at a purge tick, so that hosts and MAC entries are
+	// aged out and deleted while new frames of the same MACs arrive.
+	twoPhase := c.PurgeMin <= 3 && r.chance(1, 3)
+	if twoPhase {
+		var out []Op
+		seen := map[int]int{}
+		count := map[int]int{}
+		for _, o := range sc.Ops {
+			if o.K == "frame" {
+				count[o.T]++
+			}
+		}
+		for _, o := range sc.Ops {
+			if o.K == "frame" {
+				seen[o.T]++
+				if seen[o.T] == count[o.T]/2+1 {
+					out = append(out, Op{K: "pause", T: o.T, N: c.PurgeMin + 1}, Op{K: "frame", T: o.T, P: 9, M: r.n(4), I: r.n(16), X: 1})
+				}
+			}
+			out = append(out, o)
+		}
+		sc.Ops = out
+	}
 	// faults on the wire
 	nf := r.n(4)
 	for i := 0; i < nf; i++ {
 		sc.Ops = append(sc.Ops, Op{K: "fault", T: 40, P: r.n(3), N: 1 + r.n(3), D: r.n(10)})
 	}
 	// the closer: D selects when (possibly in the middle of the traffic)
-	sc.Ops = append(sc.Ops, Op{K: "close", T: 50, D: r.n(10), X: r.weighted([]int{3, 2, 2, 2, 2, 1, 1, 1, 1}), P: r.n(2), I: r.pick(0, 0, 1), N: r.n(2)})
+	closeAfter := r.weighted([]int{3, 2, 2, 2, 2, 1, 1, 1, 1})
+	if twoPhase {
+		closeAfter = 7 + r.n(2)
+	}
+	sc.Ops = append(sc.Ops, Op{K: "close", T: 50, D: r.n(10), X: closeAfter, P: r.n(2), I: r.pick(0, 0, 1), N: r.n(2)})
 	return sc
 }
 
@@ -329,6 +357,9 @@ func runConc9(e *exec) {
 			case 8:
 				a.inject(i, "mdns", 0, mdnsResponseFrame(u, m, clientIP(o.M), o.N))
 			}
+		case "pause":
+			pr["silence_longer_than_purge_deadline"]++
+			simrt.Sleep(int64(time.Duration(o.N) * time.Minute))
 		case "fault":
 			pr["fault"]++
 			switch o.P % 3 {
